@@ -52,6 +52,8 @@ def cases(ctx):
     for i in range(150 * K):
         G = gen.random_cfg(rng, nvars=rng.randint(1, 4), maxlen=3)
         if all(any(l == v for l, _, _ in G['R']) for v in G['V']) and G['R'][0][0] == G['S']:
+            if rng.random() < 0.3:      # a user-declared empty-word symbol
+                G['eps'] = rng.choice(['e', '_', 'z'])
             yield {'kind': 'cfg', 'X': G}
 
 
@@ -90,7 +92,19 @@ def lean_requests(c):
         if 'ok' in text:
             reqs.append({'op': 'parse_' + k, 'text': text['ok']})
         return reqs
+    if k == 'regexp':
+        r = enc.build_regexp(c['X'])
+        c['_texts'] = [print_regexp(r), print_regexp_simple(r), spaced(print_regexp_simple(r), c['X'])]
+        return [{'op': 'regexp_print', 'r': c['X']}, {'op': 'regexp_parse_full', 'text': c['_texts'][0]},
+                {'op': 'regexp_parse_simple', 'text': c['_texts'][1]}, {'op': 'regexp_parse_simple', 'text': c['_texts'][2]}]
     return []
+
+
+def spaced(t, X):
+    """a layout variant: blanks around operators, redundant parentheses around the whole expression"""
+    h = core.digest(X)
+    t2 = t.replace('+', ' + ') if int(h[0], 16) % 2 else t
+    return '(%s)' % t2 if int(h[1], 16) % 2 else t2 + ' '
 
 
 def judge(ctx, c, answers):
@@ -150,6 +164,20 @@ def judge(ctx, c, answers):
                 ctx.violation('regexp-round-trip', {'case': c_min(c), 'syntax': name, 'text': t2, 'word': diff[0], 'parsed': s2})
             elif name == 'simple' and print_regexp_simple(b2) != t2:
                 ctx.violation('regexp-round-trip', {'case': c_min(c), 'syntax': name, 'text': t2, 'reprinted': print_regexp_simple(b2)})
+        if answers:
+            texts = c.get('_texts') or [print_regexp(r), print_regexp_simple(r), spaced(print_regexp_simple(r), c['X'])]
+            pm = answers[0].get('ok', {})
+            if (pm.get('full'), pm.get('simple'), pm.get('str')) != (texts[0], texts[1], str(r)):
+                ctx.violation('correspondence:regexp_print', {'case': c_min(c), 'impl': [texts[0], texts[1], str(r)], 'model': pm}, no_input=True)
+            only_letters = all(len(a) == 1 and a.isalpha() and a.isascii() for a in oracles.rx_symbols(c['X']))
+            for la, t, parser in ((answers[1], texts[0], parse_regexp), (answers[2], texts[1], parse_simple_regexp), (answers[3], texts[2], parse_simple_regexp)):
+                b = EX.try_parse(parser, t)
+                try:
+                    bs = enc.regexp_to_spec(b) if b is not None else None
+                except Exception:
+                    bs = None
+                if only_letters and la.get('ok') != bs:
+                    ctx.violation('correspondence:regexp_parse', {'case': c_min(c), 'text': t, 'impl': bs, 'model': la}, no_input=True)
         ctx.count('regexp')
         ctx.case(c_min(c), len(repr(c['X'])) > 40)
         return
